@@ -18,8 +18,16 @@ Definition rdn := (list N * list N)%type. (* attribute type, raw value *)
 Definition special (c : N) : bool :=
   (c =? 44) || (c =? 92) || (c =? 43) || (c =? 34) || (c =? 60) || (c =? 62) || (c =? 59) || (c =? 61).
 
-Definition escape (v : list N) : list N :=
-  flat_map (fun c => if special c then [92; c] else [c]) v.
+(* [hx c]: the renderer writes byte c as a backslash and two upper-case hexadecimal digits (Active
+   Directory does so for line feed and carriage return, "\0A" and "\0D"; RFC 4514 2.4 allows it for any
+   byte).  The theorems hold for every choice of [hx]. *)
+Definition hexdigit (n : N) : N := if n <? 10 then 48 + n else 55 + n.
+
+Definition escape_hx (hx : N -> bool) (v : list N) : list N :=
+  flat_map (fun c => if hx c then [92; hexdigit (c / 16); hexdigit (c mod 16)]
+                     else if special c then [92; c] else [c]) v.
+
+Definition escape (v : list N) : list N := escape_hx (fun _ => false) v.
 
 Fixpoint join (sep : list N) (parts : list (list N)) : list N :=
   match parts with
@@ -28,13 +36,20 @@ Fixpoint join (sep : list N) (parts : list (list N)) : list N :=
   | p :: rest => p ++ sep ++ join sep rest
   end.
 
-Definition render_rdn (r : rdn) : list N := fst r ++ [61] ++ escape (snd r).
-Definition render_dn (rs : list rdn) : list N := join [44] (map render_rdn rs).
+Definition render_rdn_hx hx (r : rdn) : list N := fst r ++ [61] ++ escape_hx hx (snd r).
+Definition render_dn_hx hx (rs : list rdn) : list N := join [44] (map (render_rdn_hx hx) rs).
+Definition render_rdn (r : rdn) : list N := render_rdn_hx (fun _ => false) r.
+Definition render_dn (rs : list rdn) : list N := render_dn_hx (fun _ => false) rs.
 
 Definition is_dc (r : rdn) : bool := bytes_eqb (fst r) [68; 67].
 Definition plain (v : list N) : bool := forallb (fun c => negb (special c)) v.
+Definition nohex (hx : N -> bool) (v : list N) : bool := forallb (fun c => negb (hx c)) v.
 
-(* attribute types contain none of the special characters; DC values are DNS labels *)
+(* attribute types contain none of the special characters; DC values are DNS labels (no special and no
+   hex-escaped byte) *)
+Definition dn_ok_hx hx (rs : list rdn) : Prop :=
+  Forall (fun r => plain (fst r) = true /\ (is_dc r = true -> plain (snd r) = true /\ nohex hx (snd r) = true)) rs.
+
 Definition dn_ok (rs : list rdn) : Prop :=
   Forall (fun r => plain (fst r) = true /\ (is_dc r = true -> plain (snd r) = true)) rs.
 
